@@ -7,6 +7,7 @@ import GtModel.Model.Assign
 import GtModel.Model.Bounded
 import GtModel.Model.Search
 import GtModel.Model.Heap
+import GtModel.Model.DispatchDriver
 import GtModel.Model.Expr
 import GtModel.Model.ExprHost
 open Lean GtModel
@@ -24,6 +25,8 @@ def table : List (String × Handler) := [
   ("assign", Assign.assignHandler),
   ("bounded", GtModel.Bounded.boundedHandler),
   ("heap", Heap.heapHandler),
+  ("dispatch", Dispatch.dispatchHandler),
+  ("dispatch_all", Dispatch.dispatchAllHandler),
   ("heapsel", Heap.selHandler),
   ("expr", Expr.exprHandler),
   ("errorpath", Cli.errorPathHandler),
